@@ -62,7 +62,10 @@ fn draw_stream_x(ctx: &Ctx, kind: Kind, short: bool, big: bool) -> Vec<u8> {
         if ctx.plan(5) == 0 {
             s.extend(rc::ready_for(kind.peers()[0], None));
         }
-        let nf = 1 + ctx.plan(if short { 2 } else { 4 }) as usize;
+        // one drawn stream in sixteen ends in a message of 65..304 tiny frames: more frames than any
+        // per-call or per-read bound in the decoder, in as few segments as the partition gives
+        let many = !short && !big && ctx.idx % 16 == 5 && m == nm - 1;
+        let nf = if many { 65 + ctx.plan(240) as usize } else { 1 + ctx.plan(if short { 2 } else { 4 }) as usize };
         let mut frames: Vec<Vec<u8>> = Vec::new();
         if matches!(kind, Kind::Rep | Kind::Req) {
             frames.push(vec![]);
@@ -70,7 +73,7 @@ fn draw_stream_x(ctx: &Ctx, kind: Kind, short: bool, big: bool) -> Vec<u8> {
         for f in 0..nf {
             let len = if (m, f) == (big_at.0, big_at.1.min(nf - 1)) {
                 ctx.plan_pick(&[1usize << 16, (1 << 16) + 7, (1 << 20) - 1, 1 << 20, (1 << 20) + 1, 2 << 20, (1 << 20) + 8192])
-            } else if short {
+            } else if short || many {
                 ctx.plan(4) as usize
             } else {
                 match ctx.plan(8) {
